@@ -27,6 +27,8 @@
 (*                                                                         *)
 (* Flavour "mixin"   = FileStorage with a blob directory (BlobStorageMixin)*)
 (* Flavour "wrapmap" = BlobStorage wrapped around a MappingStorage         *)
+(* Flavour "wrapfile"= BlobStorage wrapped around a FileStorage without a  *)
+(*                     blob directory (BlobStorage.undo; no pack)          *)
 (*                                                                         *)
 (* The code AS IT IS differs from the design in three places, each behind  *)
 (* a Boolean constant (TRUE = as the code is):                             *)
@@ -41,7 +43,7 @@
 (***************************************************************************)
 EXTENDS ZPackOps
 
-CONSTANTS Flavour,          \* "mixin" | "wrapmap"
+CONSTANTS Flavour,          \* "mixin" | "wrapmap" | "wrapfile"
           NBlob,            \* blobs are the oids 2..NBlob+1 (0 = root, 1 = a plain object P)
           Atoms,            \* content atoms; a content is a sequence of atoms
           MaxLen,           \* bound on the length of a content
@@ -73,6 +75,8 @@ View == <<hist, files, old, dirty, leak, clk, packed, txn, con, nextb, aborted>>
 P == 1
 Blobs == 2..(NBlob + 1)
 IsMixin == Flavour = "mixin"
+HasUndo == Flavour \in {"mixin", "wrapfile"}
+HasPack == Flavour # "wrapfile"        \* BlobStorage._packUndoing over a packed FileStorage is not modelled
 PVals == {"v1", "v2"}
 Absent == <<"absent">>
 Lost == <<"lost">>
@@ -167,8 +171,10 @@ ViolOf(H, F, tx, ab) ==
   \cup {V("file-of-aborted-transaction") : k \in {k \in DOMAIN F : ~CommittedIn(H, k) /\ ~InFlightIn(tx, k) /\ k[2] \in ab}}
   \cup {V("file-of-removed-revision") : k \in {k \in DOMAIN F : ~CommittedIn(H, k) /\ ~InFlightIn(tx, k) /\ k[2] \notin ab}}
   \cup {V("bytes-differ-from-written") : k \in {k \in DOMAIN F : CommittedIn(H, k) /\ F[k].c # F[k].w}}
+  \* (the property speaks of modification in place; the permission bits of the copies BlobStorage.undo writes
+  \*  are compared by the replays but are no violation of it)
   \cup {[inv |-> "CommittedFilesImmutable", kind |-> "committed-file-writable"] :
-           k \in {k \in DOMAIN F : CommittedIn(H, k) /\ ~F[k].ro}}
+           k \in {k \in DOMAIN F : Flavour # "wrapfile" /\ CommittedIn(H, k) /\ ~F[k].ro}}
 SnapExpr == SnapOf(hist, files, packed)
 ViewExpr == ViewOf(con, txn)
 IterExpr == IterOf(hist)
@@ -398,7 +404,7 @@ OtherCommit(o, x) ==
 \* DB.undo(id) in a transaction of its own (TransactionalUndo): FileStorage._txn_undo_write /
 \* _transactionalUndoRecord with nothing else staged; one record per oid per transaction in this model
 UBegin(t) ==
-  /\ Idle /\ IsMixin /\ clk < MaxTid
+  /\ Idle /\ HasUndo /\ clk < MaxTid
   /\ t \in TidsOf(hist) /\ t > 2 /\ hist[TidPos(hist, t)].status = " "
   /\ clk' = clk + 1
   /\ txn' = [who |-> "undo", tid |-> clk + 1, phase |-> "begun", staged |-> <<>>, target |-> t]
@@ -441,24 +447,42 @@ UndoRecs(H, i, j) ==
            ELSE IF k = "back" THEN <<BackRec(o, H[PrevPos(H, i, o)].tid)>>
            ELSE <<>>) \o UndoRecs(H, i, j + 1)
 
+\* BlobStorage.undo (wrapper over an undo-capable storage): first the wrapped storage's undo (an UndoError leaves
+\* before any file is touched); then, for every oid that has a blob FILE carrying the undone tid (getOIDsForSerial,
+\* ascending oid), loadBefore(oid, undone tid): no earlier revision -> the file of the undone transaction itself is
+\* copied ("in case a user wishes to undo this undo"), else the file of that earlier revision; a revision that
+\* does not load (undone creation) makes loadBefore raise POSKeyError out of undo().  The copy is written with a
+\* plain open(): it keeps its write-permission bits.
+WCands(t) == {o \in Blobs : <<o, t>> \in DOMAIN files}
+WBad(t) == {o \in WCands(t) : LoadBefore(hist, o, t).k = "keyerr"}
+WCopies(t) == IF WBad(t) = {} THEN WCands(t) ELSE {o \in WCands(t) : o < MinS(WBad(t))}
+WSrc(o, t) == The({IF r.k = "rev" THEN <<o, r.serial>> ELSE <<o, t>> : r \in {LoadBefore(hist, o, t)}})
+
 UStore ==
   /\ txn.who = "undo" /\ txn.phase = "begun"
   /\ LET i == TidPos(hist, txn.target)
          oids == {hist[i].recs[j].oid : j \in 1..Len(hist[i].recs)}
      IN \E kind \in {[o \in oids |-> UndoKind(hist, i, o)]} :
-        \* "We're undoing a blob modification operation.  We have to copy the blob data"
-        \E src \in {[o \in {o \in oids \cap Blobs : kind[o] = "back" /\ HolderTid(hist, PrevPos(hist, i, o), o) # 0} |->
-                       <<o, HolderTid(hist, PrevPos(hist, i, o), o)>>]} :
         LET fails == {o \in oids : kind[o] = "fail"}
-            copies == DOMAIN src
+            bfail == ~IsMixin /\ fails = {} /\ WBad(txn.target) # {}
+        IN
+        \* mixin: "We're undoing a blob modification operation.  We have to copy the blob data" (_txn_undo_write,
+        \* record by record, before it knows whether another record fails)
+        \E src \in {IF IsMixin
+                     THEN [o \in {o \in oids \cap Blobs : kind[o] = "back" /\ HolderTid(hist, PrevPos(hist, i, o), o) # 0} |->
+                             <<o, HolderTid(hist, PrevPos(hist, i, o), o)>>]
+                     ELSE IF fails # {} THEN <<>>
+                     ELSE [o \in WCopies(txn.target) |-> WSrc(o, txn.target)]} :
+        LET copies == DOMAIN src
         IN /\ \A o \in copies : src[o] \in DOMAIN files
            /\ files' = [k \in (DOMAIN files) \cup {<<o, txn.tid>> : o \in copies} |->
                           IF k[2] = txn.tid /\ k[1] \in copies
-                          THEN [c |-> files[src[k[1]]].c, w |-> files[src[k[1]]].w, ro |-> TRUE]
+                          THEN [c |-> files[src[k[1]]].c, w |-> files[src[k[1]]].w, ro |-> IsMixin]
                           ELSE files[k]]
            /\ dirty' = dirty \cup {<<o, txn.tid>> : o \in copies}
-           /\ txn' = [txn EXCEPT !.phase = IF fails = {} THEN "stored" ELSE "failed", !.staged = UndoRecs(hist, i, 1)]
-           /\ res' = IF fails = {} THEN OK("commit") ELSE Out("commit", "UndoError")
+           /\ txn' = [txn EXCEPT !.phase = IF fails = {} /\ ~bfail THEN "stored" ELSE "failed", !.staged = UndoRecs(hist, i, 1)]
+           /\ res' = IF fails # {} THEN Out("commit", "UndoError")
+                     ELSE IF bfail THEN Out("commit", "KeyError") ELSE OK("commit")
   /\ UNCHANGED <<hist, old, leak, clk, packed, con, nextb, aborted>> /\ DerivedCon
 UStoreOK == UStore /\ txn'.phase = "stored"
 UStoreFail == UStore /\ txn'.phase = "failed"
@@ -578,7 +602,7 @@ LoadableOnly(F, H2) == [k \in {k \in DOMAIN F : k \in BlobRevsOf(H2)} |-> F[k]]
 
 \* (\E x \in {e} makes TLC evaluate e once; a LET definition is re-evaluated at every use in an action)
 Pack(T) ==
-  /\ Idle /\ IsClean(con) /\ T \in 1..clk
+  /\ HasPack /\ Idle /\ IsClean(con) /\ T \in 1..clk
   /\ \E r \in {IF IsMixin THEN LeanFilePack(hist, T) ELSE MappingPack(hist, T, TRUE, packed[2])} :
      LET done == r.out = "ok" IN
      \E h2 \in {IF done THEN Solid(r.h) ELSE hist} :
